@@ -179,3 +179,7 @@ def contents_unchanged(x):
 
 def contents_as_old(x):
     return True
+
+
+def ufvt(name, spec, *args):
+    return _UF[name](*args)
